@@ -30,6 +30,10 @@ const c03Rule = "rapid-generated DSL-expressible models (0-4 types, 0-4 relation
 
 // c03Check returns (violation, harnessError).
 func c03Check(in layoutInput) (string, string, *gen.Rendered) {
+	if in.After != "" {
+		_, _ = transformer.TransformDSLToProto(in.After)
+		_, _, _ = transformer.TransformModularDSLToProto(in.After)
+	}
 	r := in.render()
 	g := repoGrammar()
 	// "Layout the grammar allows" = the documented pre-pass (comment lines blanked, trailing " #..." cut, trailing blanks
@@ -191,6 +195,28 @@ func TestC03(t *testing.T) {
 			in.Text = r.Text
 			rec.Violation(in, msg)
 			rt.Fatalf("%s\n%s", msg, r.Text)
+		}
+		// checksum twins: this document, then a different model in the same layout, made equal to it in length, CRC-32
+		// and CRC-64 by a trailing comment line; the second parse must return the second model
+		if rapid.IntRange(0, 7).Draw(rt, "twin") == 0 {
+			m2 := in.Model.Clone()
+			m2.Types = append(m2.Types, gen.TypeDef{Name: "zz-twin"})
+			in2 := layoutInput{Model: m2, Module: in.Module, Extend: in.Extend, Choices: in.Choices}
+			if a2, b2, ok := gen.ChecksumTwins(r.Text, in2.render().Text); ok {
+				in2.After, in2.Suffix = a2, b2[len(in2.render().Text):]
+				msg2, herr2, r2 := c03Check(in2)
+				rec.Class("history:checksum-twin-parsed-after-its-twin", 1)
+				if herr2 != "" {
+					harness = true
+					ev.HarnessError("C03", "checksum twin: %s", herr2)
+					rt.Fatalf("harness: %s", herr2)
+				}
+				if msg2 != "" {
+					in2.Text = r2.Text
+					rec.Violation(in2, "document parsed right after a different document of the same length and checksums: "+msg2)
+					rt.Fatalf("checksum twin: %s\n%s", msg2, r2.Text)
+				}
+			}
 		}
 		// one-factor-at-a-time enumeration around the canonical layout for a subset of cases
 		nRels := 0
